@@ -43,6 +43,7 @@ func checkC10(ctx *Ctx, r *Report) {
 	// defaults of lists and maps are read by the JSON Schema / OpenAPI front-ends; nested empty collections are values
 	c12CollectionDefaultsRead(ctx, r)
 	c12CueNestedEmptyCollections(ctx, r)
+	c10FourthHunt(ctx, r)
 }
 
 func c10DefaultCarried(ctx *Ctx, r *Report) map[*types.Func]bool {
@@ -1783,9 +1784,31 @@ func c10ThirdHunt(ctx *Ctx, r *Report) {
 		r.Undecided("anchor lost: golang.RawTypes.formatDefaultValue")
 	} else if fd, p := ctx.DeclOf(fn); fd != nil {
 		recursive := false
+		info := p.TypesInfo
+		// the type handed to the recursive call is the item type of the list (the function also recurses for the values of
+		// a map: that call says nothing about lists)
+		defs := map[types.Object]ast.Expr{}
 		ast.Inspect(fd.Body, func(m ast.Node) bool {
-			if c, ok := m.(*ast.CallExpr); ok && callee(p.TypesInfo, c) == fn {
-				recursive = true
+			if as, ok := m.(*ast.AssignStmt); ok && as.Tok == token.DEFINE && len(as.Lhs) == len(as.Rhs) {
+				for i, l := range as.Lhs {
+					if id, ok := l.(*ast.Ident); ok {
+						defs[info.Defs[id]] = as.Rhs[i]
+					}
+				}
+			}
+			return true
+		})
+		ast.Inspect(fd.Body, func(m ast.Node) bool {
+			if c, ok := m.(*ast.CallExpr); ok && callee(info, c) == fn && len(c.Args) > 0 {
+				text := exprString(c.Args[0])
+				if id, ok := ast.Unparen(c.Args[0]).(*ast.Ident); ok {
+					if d, ok := defs[objOf(info, id)]; ok {
+						text = exprString(d)
+					}
+				}
+				if strings.Contains(text, "AsArray()") || strings.Contains(text, ".Array.") {
+					recursive = true
+				}
 			}
 			return true
 		})
@@ -1872,4 +1895,97 @@ func followDelegation(ctx *Ctx, info *types.Info, fd *ast.FuncDecl) *ast.FuncDec
 		fd = next
 	}
 	return fd
+}
+
+// c10FourthHunt: (a) Go writes the default of a map as a literal of the map's own type: formatDefaultValue has a branch
+// that recognises a map value for a map type and goes through the type formatter (`%#v` of a map[string]any is
+// `map[string]interface {}{…}`, which no typed map field accepts); (b) Python: when a struct default names the fields of
+// the struct, those that are constants are not handed to the constructor — it sets them itself and has no such argument.
+func c10FourthHunt(ctx *Ctx, r *Report) {
+	n := 0
+	if fn := ctx.LookupMethod("internal/jennies/golang", "RawTypes", "formatDefaultValue"); fn == nil {
+		r.Undecided("anchor lost: golang.RawTypes.formatDefaultValue")
+	} else if fd, p := ctx.DeclOf(fn); fd != nil {
+		info := p.TypesInfo
+		typed := false
+		ast.Inspect(fd.Body, func(m ast.Node) bool {
+			is, ok := m.(*ast.IfStmt)
+			if !ok {
+				return true
+			}
+			asMap := false
+			check := func(e ast.Node) {
+				ast.Inspect(e, func(k ast.Node) bool {
+					if ta, ok := k.(*ast.TypeAssertExpr); ok && ta.Type != nil {
+						if _, isMap := info.TypeOf(ta.Type).Underlying().(*types.Map); isMap {
+							asMap = true
+						}
+					}
+					return true
+				})
+			}
+			if is.Init != nil {
+				check(is.Init)
+			}
+			check(is.Cond)
+			if !asMap || !strings.Contains(exprString(is.Cond), "IsMap()") {
+				return true
+			}
+			ast.Inspect(is.Body, func(k ast.Node) bool {
+				if c, ok := k.(*ast.CallExpr); ok {
+					if f := callee(info, c); f != nil && f.Name() == "formatType" {
+						typed = true
+					}
+				}
+				return true
+			})
+			return true
+		})
+		n++
+		r.Check(typed, "kinds/go-map-default-typed", "golang.RawTypes.formatDefaultValue writes map defaults", fd.Pos(), "a map value for a map type is written as a literal of the type the formatter gives",
+			"formatDefaultValue hands a map default to formatScalar: `labels: {additionalProperties: {type: string}, default: {env: prod}}` is written `Labels: map[string]interface {}{\"env\":\"prod\"}` into a map[string]string — the package does not compile")
+	}
+	if fn := ctx.LookupFunc("internal/jennies/python", "defaultValueForTypeRec"); fn == nil {
+		r.Undecided("anchor lost: python.defaultValueForTypeRec")
+	} else if fd, p := ctx.DeclOf(fn); fd != nil {
+		info := p.TypesInfo
+		skips := false
+		found := false
+		ast.Inspect(fd.Body, func(m ast.Node) bool {
+			c, ok := m.(*ast.CallExpr)
+			if !ok || len(c.Args) != 1 {
+				return true
+			}
+			sel, ok := c.Fun.(*ast.SelectorExpr)
+			if !ok || sel.Sel.Name != "Iterate" {
+				return true
+			}
+			lit, ok := c.Args[0].(*ast.FuncLit)
+			if !ok {
+				return true
+			}
+			_ = info
+			found = true
+			for _, st := range lit.Body.List {
+				is, ok := st.(*ast.IfStmt)
+				if !ok || !endsInExit(is.Body) {
+					continue
+				}
+				cond := exprString(is.Cond)
+				if strings.Contains(cond, "IsConcreteScalar()") && strings.Contains(cond, "IsConstantRef()") && !strings.Contains(cond, "&&") {
+					skips = true
+				}
+			}
+			return true
+		})
+		if !found {
+			r.Undecided("anchor changed: python.defaultValueForTypeRec no longer iterates over the overrides of a struct default")
+		} else {
+			n++
+			r.Check(skips, "frontier/python-default-skips-constants", "python.defaultValueForTypeRec skips the constants named by a struct default", fd.Pos(), "fields that are constants are not turned into constructor arguments",
+				"defaultValueForTypeRec turns every key of a struct default into a keyword argument: `inner: #Inner | *{kind: \"k\", a: \"y\"}` where Inner.kind is the constant \"k\" gives Inner(a=\"y\", kind=\"k\") and Inner.__init__ has no kind parameter — Demo() raises TypeError")
+		}
+	}
+	r.Count("hunted clauses of defaults (4th hunt)", n)
+	r.Floor("hunted clauses of defaults (4th hunt)", 2)
 }
